@@ -32,6 +32,9 @@ pub struct Policy {
     pub pending_writes: BTreeSet<u64>,
     /// flush operation indices that return a spurious `Pending` once
     pub pending_flushes: BTreeSet<u64>,
+    /// a carrier that buffers: written bytes reach the reader only when a flush (or close) completes, like a
+    /// `NoiseSocket` or a TLS stream; a flush answered with an injected `Pending` delivers nothing
+    pub deliver_on_flush: bool,
     /// after this many bytes have been written in total the pipe reports EOF to the reader and discards the rest
     pub cut_after: Option<u64>,
     /// XOR masks applied to bytes at absolute stream offsets (in-transit corruption)
@@ -48,6 +51,7 @@ impl Default for Policy {
             pending_reads: BTreeSet::new(),
             pending_writes: BTreeSet::new(),
             pending_flushes: BTreeSet::new(),
+            deliver_on_flush: false,
             cut_after: None,
             flips: Vec::new(),
         }
@@ -66,6 +70,8 @@ pub struct Stats {
 
 struct Shared {
     buf: VecDeque<u8>,
+    /// written but not yet flushed (only with `deliver_on_flush`)
+    staged: VecDeque<u8>,
     policy: Policy,
     stats: Stats,
     writer_closed: bool,
@@ -129,6 +135,7 @@ pub struct PipeWriter(Arc<Mutex<Shared>>);
 pub fn pipe(policy: Policy) -> (PipeWriter, PipeReader, PipeHandle) {
     let s = Arc::new(Mutex::new(Shared {
         buf: VecDeque::new(),
+        staged: VecDeque::new(),
         policy,
         stats: Stats::default(),
         writer_closed: false,
@@ -209,7 +216,7 @@ impl AsyncWrite for PipeWriter {
         if data.is_empty() {
             return Poll::Ready(Ok(0));
         }
-        let room = s.policy.window.saturating_sub(s.buf.len());
+        let room = s.policy.window.saturating_sub(s.buf.len() + s.staged.len());
         if room == 0 {
             s.writer_waker = Some(cx.waker().clone());
             return Poll::Pending;
@@ -230,7 +237,11 @@ impl AsyncWrite for PipeWriter {
                 }
             }
             s.log.push(b);
-            s.buf.push_back(b);
+            if s.policy.deliver_on_flush {
+                s.staged.push_back(b);
+            } else {
+                s.buf.push_back(b);
+            }
         }
         if let Some(cut) = s.policy.cut_after {
             if s.stats.bytes_written >= cut {
@@ -252,11 +263,20 @@ impl AsyncWrite for PipeWriter {
             cx.waker().wake_by_ref();
             return Poll::Pending;
         }
+        if !s.staged.is_empty() {
+            let staged = std::mem::take(&mut s.staged);
+            s.buf.extend(staged);
+            if let Some(w) = s.reader_waker.take() {
+                w.wake();
+            }
+        }
         Poll::Ready(Ok(()))
     }
 
     fn poll_close(self: Pin<&mut Self>, _cx: &mut Context<'_>) -> Poll<io::Result<()>> {
         let mut s = self.0.lock();
+        let staged = std::mem::take(&mut s.staged);
+        s.buf.extend(staged);
         s.writer_closed = true;
         if let Some(w) = s.reader_waker.take() {
             w.wake();
